@@ -153,13 +153,13 @@ def find_top(mask, i, chars, end=None, angle=False):
     return -1
 
 
-def split_top(text, sep=','):
+def split_top(text, sep=',', angle=True):
     """Split text at top-level separators (bracket and angle aware)."""
     mask = code_mask(text)
     parts, start = [], 0
     i = 0
     while True:
-        j = find_top(mask, i, sep, angle=True)
+        j = find_top(mask, i, sep, angle=angle)
         if j < 0:
             break
         parts.append(text[start:j])
